@@ -32,7 +32,7 @@ open Dblib.Props.C07.Basic Dblib.Props.C07.Cursor in
 theorem parsers_incr : ∀ e ∈ parsers, Incr e.2 := by
   intro e he
   simp only [parsers, List.mem_cons, List.not_mem_nil, or_false] at he
-  rcases he with h | h | h | h | h | h | h | h | h | h | h | h | h | h | h | h | h | h | h | h | h | h
+  rcases he with h | h | h | h | h | h | h | h | h | h | h | h | h | h | h | h | h | h | h | h | h | h | h | h | h | h
   all_goals subst h
   · exact lift_incr _ Dblib.Props.C07.Basic.Done.dec_incr
   · exact lift_incr _ Dblib.Props.C07.Basic.Done.dec_incr
@@ -56,14 +56,34 @@ theorem parsers_incr : ∀ e ∈ parsers, Incr e.2 := by
   · exact lift_incr _ Dblib.Props.C07.Cursor.CurFetch.dec_incr
   · exact lift_incr _ Dblib.Props.C07.Cursor.CurUpdate.dec_incr
   · exact lift_incr _ Dblib.Props.C07.Cursor.CurDelete.dec_incr
+  · exact lift_incr _ (Dblib.Props.C07.Fields.ParamFmt.dec_incr _)
+  · exact lift_incr _ (Dblib.Props.C07.Fields.ParamFmt.dec_incr _)
+  · exact lift_incr _ (Dblib.Props.C07.Fields.RowFmt.dec_incr _)
+  · exact lift_incr _ (Dblib.Props.C07.Fields.RowFmt.dec_incr _)
 
 /-- every parser `LookupPackage` can hand to the channel obeys the incremental law -/
 theorem select_incr : ∀ tok last p, Codec.ops.select tok last = .parser p → Incr p := by
   intro tok last p h
   simp only [Codec.ops, select] at h
-  injection h with h
-  subst h
-  exact findParser_incr _ _ parsers_incr
+  split at h
+  · split at h
+    · split at h
+      · injection h with h; subst h
+        exact lift_incr _ (Dblib.Props.C07.Fields.Row.dec_incr _)
+      · simp at h
+    · simp at h
+  · split at h
+    · split at h
+      · injection h with h; subst h
+        exact lift_incr _ Dblib.Props.C07.Fields.OrderBy.dec_incr
+      · simp at h
+    · split at h
+      · split at h
+        · injection h with h; subst h
+          exact lift_incr _ Dblib.Props.C07.Fields.OrderBy2.dec_incr
+        · simp at h
+      · injection h with h; subst h
+        exact findParser_incr _ _ parsers_incr
 
 /-- **C02 for the concrete parsers**: for every response that parses whole, every cut of it into
 packets yields the same deliveries, errors and hook calls as the single packet. -/
